@@ -572,6 +572,17 @@ def zoo(tier='quick'):
         p.post(post)
         p.features.add('user-income-exclusion')
         Z.append(p)
+    # a model-level variable spelled like a LOCAL variable of some sector (the deposit market's r, the tax flow's T), used bare in an equation of every sector
+    p = single('pc_global_shadows_local', gov='tre_cb')
+
+    def shadow_post(c):
+        c.model.AddGlobalEquation('r', 'world interest rate (model level)', '0.05')
+        c.model.AddGlobalEquation('T', 'a model-level variable spelled like the tax variable', 'r * 2')
+        for sec in c.model.GetSectors():
+            sec.AddVariable('WRLD', 'uses names that are local here or model-level elsewhere', 'r + T')
+    p.post(shadow_post)
+    p.features.add('global-shadows-local')
+    Z.append(p)
     # a sector living in the external (numeraire) country sends to / receives from real-currency sectors
     p = two_zone('xz_numeraire_fund', {}, dict(caps=True, firm='fm1'), [])
     p.decl('EXT.FUND', lambda c: Sector(c['EXT'], c.nm('FUND')), needs=('EXT',), group='EXT')
